@@ -671,7 +671,9 @@ where
                     }
                     ChunkCommand::Resume => {
                         //info!("[verify-test] run_vms_child: resume");
-                        let res = scheduler.run(RunMode::Pause(pause_cloned, max_cycles));
+                        // the budget covers the whole run, not each stretch between two pauses
+                        let remaining = max_cycles.saturating_sub(scheduler.consumed_cycles());
+                        let res = scheduler.run(RunMode::Pause(pause_cloned, remaining));
                         match res {
                             Ok(_) => {
                                 let _ = finish_tx.send(res);
